@@ -1,5 +1,6 @@
 import Scion.Model.Chain
 import Scion.Proofs.Chain
+import Scion.Gen.Pki2
 /-!
 # C34 — Only properly formed chains rooted in an active TRC are trusted
 
@@ -436,6 +437,29 @@ theorem provider_chain_rule (i : GetIn) (latest pred : Lookup) (now : Int) (l : 
             · rename_i g' ; injection hres with h1 h2; subst h2
               exact ⟨rfl, hg'⟩
       exact ⟨L, hL, hv, Or.inr ⟨hok, ⟨g, hg.1⟩, hg.2⟩⟩
+
+/-! ## Facts regenerated from the source (T3) -/
+
+/-- the numbering of `cppki.CertType`, the X.509 version, the chain length constant and the list
+of accepted signature algorithms are the ones the model uses -/
+theorem gen_consts :
+    Gen.Pki2.certTypeInvalid = CertType.invalid.toNat ∧
+    Gen.Pki2.certTypeSensitive = CertType.sensitive.toNat ∧
+    Gen.Pki2.certTypeRegular = CertType.regular.toNat ∧
+    Gen.Pki2.certTypeRoot = CertType.root.toNat ∧
+    Gen.Pki2.certTypeCA = CertType.ca.toNat ∧
+    Gen.Pki2.certTypeAS = CertType.as.toNat ∧
+    Gen.Pki2.certVersion = 3 ∧ Gen.Pki2.chainLen = 2 ∧
+    Gen.Pki2.validSigAlgs = ["x509.ECDSAWithSHA256", "x509.ECDSAWithSHA384", "x509.ECDSAWithSHA512"] := by
+  decide
+
+/-- the staged checks appear in the source in the order the model applies them -/
+theorem gen_call_order :
+    Gen.Pki2.verifyChainCalls = ["ValidateChain", "IsZero", "CheckSignatureFrom", "RootPool", "Verify"] ∧
+    Gen.Pki2.validateChainCalls = ["ValidateCert", "ValidateCert", "Covers"] ∧
+    Gen.Pki2.activeTRCsCalls =
+      ["SignedTRC", "IsZero", "Contains", "InGracePeriod", "SignedTRC", "IsZero"] := by
+  decide
 
 /-! ## Non-vacuity -/
 
